@@ -369,10 +369,20 @@ def pwl_case(item, ctx=None):
                     (W[:, c].tolist(), mv[bad[0]], iters))
         item = dict(item, only=W[:, c].tolist())
         break
-  # nearest for monotonicity + bounds (no convexity, no clamps)
-  if not msgs and mono and conv == 0 and (lo is not None or hi is not None) and not (
-      item["cmin"] or item["cmax"]):
-    P = pj.project_active_set(A, W, b=b)
+  # nearest for monotonicity + bounds (no convexity); a clamped end is an equality on that output
+  if not msgs and mono and conv == 0 and (lo is not None or hi is not None):
+    A2, b2 = A, b
+    if item["cmin"] or item["cmax"]:
+      extra, eb = [], []
+      first, last_ = cum[0], cum[n - 1]
+      if item["cmin"]:   # smallest output of a monotone function: first keypoint if increasing
+        r = first if mono == 1 else last_
+        extra.append(-r); eb.append(-lo)
+      if item["cmax"]:
+        r = last_ if mono == 1 else first
+        extra.append(r); eb.append(hi)
+      A2 = np.concatenate([A, np.array(extra)], axis=0); b2 = np.concatenate([b, np.array(eb)])
+    P = pj.project_active_set(A2, W, b=b2)
     o = run(W, 1000)
     total += W.shape[1]
     dist = np.abs(o - P).max(axis=0)
